@@ -12,51 +12,69 @@ fn any_sym() -> u8 {
 }
 
 // distance = #positions where both present and different; mismatch proportion = one-sided / (both + one-sided +
-// constant) (0 if that is 0); symmetric; identical columns -> (0, 0); proportion in [0,1].  BOUND: length 3.
-#[kani::proof]
-#[kani::unwind(6)]
-fn bounded_variant_dist_len3() {
-    let a = [any_sym(), any_sym(), any_sym()];
-    let b = [any_sym(), any_sym(), any_sym()];
-    let c: u8 = kani::any();
-    kani::assume(c < 4);
-    let constant = c as f64;
-    let s1 = arr1(&a);
-    let s2 = arr1(&b);
-    let (d, m) = MergeSkaArray::<u64>::variant_dist(&s1.view(), &s2.view(), constant);
-    let (d2, m2) = MergeSkaArray::<u64>::variant_dist(&s2.view(), &s1.view(), constant);
-    let mut both_diff = 0u32;
-    let mut both = 0u32;
-    let mut one = 0u32;
-    let mut i = 0;
-    while i < 3 {
-        let x = a[i];
-        let y = b[i];
-        if x != b'-' && y != b'-' {
-            both += 1;
-            if x != y {
-                both_diff += 1;
+// constant) (0 if that is 0); symmetric; identical columns -> (0, 0); proportion in [0,1].  BOUND: the column length.
+macro_rules! variant_dist_len {
+    ($name:ident; $n:expr, $unw:expr) => {
+        #[kani::proof]
+        #[kani::unwind($unw)]
+        fn $name() {
+            const N: usize = $n;
+            let mut a = [b'A'; N];
+            let mut b = [b'A'; N];
+            let mut t = 0;
+            while t < N {
+                a[t] = any_sym();
+                b[t] = any_sym();
+                t += 1;
             }
-        } else if (x == b'-') != (y == b'-') {
-            one += 1;
+            let c: u8 = kani::any();
+            kani::assume(c < 4);
+            let constant = c as f64;
+            let s1 = arr1(&a);
+            let s2 = arr1(&b);
+            let (d, m) = MergeSkaArray::<u64>::variant_dist(&s1.view(), &s2.view(), constant);
+            let (d2, m2) = MergeSkaArray::<u64>::variant_dist(&s2.view(), &s1.view(), constant);
+            let mut both_diff = 0u32;
+            let mut both = 0u32;
+            let mut one = 0u32;
+            let mut same = true;
+            let mut i = 0;
+            while i < N {
+                let x = a[i];
+                let y = b[i];
+                if x != y {
+                    same = false;
+                }
+                if x != b'-' && y != b'-' {
+                    both += 1;
+                    if x != y {
+                        both_diff += 1;
+                    }
+                } else if (x == b'-') != (y == b'-') {
+                    one += 1;
+                }
+                i += 1;
+            }
+            assert!(d == both_diff as f64);
+            let denom = both as f64 + one as f64 + constant;
+            if denom == 0.0 {
+                assert!(m == 0.0);
+            } else {
+                assert!(m == one as f64 / denom);
+            }
+            assert!(d == d2 && m == m2);
+            assert!(m >= 0.0 && m <= 1.0);
+            if same {
+                assert!(d == 0.0 && m == 0.0);
+            }
+            kani::cover!(both_diff == N as u32);
+            kani::cover!(one == N as u32);
         }
-        i += 1;
-    }
-    assert!(d == both_diff as f64);
-    let denom = both as f64 + one as f64 + constant;
-    if denom == 0.0 {
-        assert!(m == 0.0);
-    } else {
-        assert!(m == one as f64 / denom);
-    }
-    assert!(d == d2 && m == m2);
-    assert!(m >= 0.0 && m <= 1.0);
-    if a[0] == b[0] && a[1] == b[1] && a[2] == b[2] {
-        assert!(d == 0.0 && m == 0.0);
-    }
-    kani::cover!(both_diff == 3);
-    kani::cover!(one == 3);
+    };
 }
+
+variant_dist_len!(bounded_variant_dist_len3; 3, 6);
+variant_dist_len!(bounded_variant_dist_len4; 4, 7);
 
 fn count_cell(b: u8, ambig_as_missing: bool) -> bool {
     b != b'-' && (!ambig_as_missing || !is_ambiguous(b))
